@@ -506,6 +506,8 @@ type LemmaStep struct {
 }
 
 type EventClause struct {
+	Fired   int    // how often the clause matched a program point (vacuity guard)
+	Line    int
 	Results []Clause // assumptions about the result of the callback (configuration assumptions, listed in the evidence)
 	Uses    []Clause // instances of built-in lemmas (valid formulas) assumed at the event
 	Kind    string // on-call | on-send | at | on-entry
@@ -544,7 +546,17 @@ type Contract struct {
 	NoPanicOff bool
 	Holds      []string // locks held at entry (requires held(l))
 	Unit       bool     // verify as a unit even if only inlined elsewhere
+	Iter       *IterSpec // higher-order iteration: the function calls one of its function parameters some number of times
 	Seq        bool     // sequential reading: monitors do not havoc guarded state at acquire (histories, not interleavings)
+}
+
+// IterSpec: "iterates f(x, y) [nonempty-when expr]" followed by "iterates-requires expr" clauses (over the callee's
+// parameters and the callback's formals). The callee's body must establish them (on-call f(...) assertions).
+type IterSpec struct {
+	Param    string
+	Formals  []string
+	NonEmpty *SExpr
+	Requires []Clause
 }
 
 type SpecFunc struct {
@@ -573,6 +585,7 @@ type Monitor struct {
 	Lock    string // field name of the lock
 	Guards  []string
 	Invs    []Clause
+	Stable  []Clause // two-state clauses (old() = state at the previous release/acquire): guaranteed by every critical section, relied on across havoc
 	RecvVar string
 }
 
@@ -633,7 +646,7 @@ func specLines(f *ast.File, fset *token.FileSet) []struct {
 	return out
 }
 
-var clauseKeywords = []string{"assume-result", "seq", "ghost-var", "requires-captured", "on-entry", "use", "requires", "ensures", "modifies", "loop", "inline", "pure", "trusted", "ghost-param", "on-call", "on-send", "at", "decreases",
+var clauseKeywords = []string{"stable", "iterates-requires", "iterates", "assume-result", "seq", "ghost-var", "requires-captured", "on-entry", "use", "requires", "ensures", "modifies", "loop", "inline", "pure", "trusted", "ghost-param", "on-call", "on-send", "at", "decreases",
 	"props", "let", "assert", "guards", "invariant", "ghost", "field", "holds", "unit", "recv", "call"}
 
 func stripComment(s string) string {
@@ -883,6 +896,34 @@ func parseContractFile(pkg string, path string, f *ast.File, fset *token.FileSet
 			if cur != nil {
 				cur.Decreases = parse(it.line, rest)
 			}
+		case "iterates":
+			if cur != nil {
+				head, cond := rest, ""
+				if i := strings.Index(rest, "nonempty-when"); i >= 0 {
+					head, cond = strings.TrimSpace(rest[:i]), strings.TrimSpace(rest[i+len("nonempty-when"):])
+				}
+				op := strings.Index(head, "(")
+				if op < 0 || !strings.HasSuffix(head, ")") {
+					errf(it.line, "iterates f(x, ...) expected")
+					continue
+				}
+				is := &IterSpec{Param: strings.TrimSpace(head[:op])}
+				for _, f := range strings.Split(head[op+1:len(head)-1], ",") {
+					if f = strings.TrimSpace(f); f != "" {
+						is.Formals = append(is.Formals, f)
+					}
+				}
+				if cond != "" {
+					is.NonEmpty = parse(it.line, cond)
+				}
+				cur.Iter = is
+			}
+		case "iterates-requires":
+			if cur != nil && cur.Iter != nil {
+				cur.Iter.Requires = append(cur.Iter.Requires, namedClause(it.line, rest))
+			} else {
+				errf(it.line, "iterates-requires without iterates")
+			}
 		case "assume-result":
 			if curEvent == nil {
 				errf(it.line, "assume-result outside an event clause")
@@ -900,9 +941,9 @@ func parseContractFile(pkg string, path string, f *ast.File, fset *token.FileSet
 				errf(it.line, "%s outside func", kw)
 				continue
 			}
-			ev := &EventClause{Kind: kw}
+			ev := &EventClause{Kind: kw, Line: it.line}
 			t := strings.TrimSuffix(strings.TrimSpace(rest), ":")
-			if i := strings.Index(t, "("); i > 0 && strings.HasSuffix(t, ")") && kw != "at" {
+			if i := strings.LastIndex(t, "("); i > 0 && strings.HasSuffix(t, ")") && kw != "at" {
 				ev.Target = strings.TrimSpace(t[:i])
 				for _, p := range strings.Split(t[i+1:len(t)-1], ",") {
 					ev.Params = append(ev.Params, strings.TrimSpace(p))
@@ -965,6 +1006,12 @@ func parseContractFile(pkg string, path string, f *ast.File, fset *token.FileSet
 					curMon.Guards = append(curMon.Guards, strings.TrimSpace(g))
 				}
 			}
+		case "stable":
+			if curMon != nil {
+				curMon.Stable = append(curMon.Stable, namedClause(it.line, rest))
+			} else {
+				errf(it.line, "stable outside monitor")
+			}
 		case "invariant":
 			c := namedClause(it.line, rest)
 			switch {
@@ -977,11 +1024,11 @@ func parseContractFile(pkg string, path string, f *ast.File, fset *token.FileSet
 			}
 		case "field":
 			if curType != nil {
-				// field a, b guarded_by lock
-				fs := strings.Fields(strings.ReplaceAll(rest, ",", " "))
+				// field a, b guarded_by lock [frozen_when expr]
+				all := strings.Fields(rest)
 				split := -1
-				for i, f := range fs {
-					switch f {
+				for i, f := range all {
+					switch strings.TrimSuffix(f, ",") {
 					case "guarded_by", "immutable_after", "atomic", "owned_by_caller", "sync", "owned_by", "config", "syncmap":
 						if split < 0 {
 							split = i
@@ -992,8 +1039,12 @@ func parseContractFile(pkg string, path string, f *ast.File, fset *token.FileSet
 					errf(it.line, "field ownership clause expected")
 					continue
 				}
-				for _, f := range fs[:split] {
-					curType.Owner[f] = strings.Join(fs[split:], " ")
+				clause := strings.Join(all[split:], " ")
+				if !strings.Contains(clause, "frozen_when") {
+					clause = strings.Join(strings.Fields(strings.ReplaceAll(clause, ",", " ")), " ")
+				}
+				for _, f := range strings.Fields(strings.ReplaceAll(strings.Join(all[:split], " "), ",", " ")) {
+					curType.Owner[f] = clause
 				}
 			}
 		default:
